@@ -324,14 +324,23 @@ func rank(s string) int {
 }
 
 func (c *Ctx) Discharge(rule, construct string, pos token.Pos, detail string) {
+	if rule == "" {
+		return // a shared analysis run for another property: this part of it is not claimed there
+	}
 	c.add(&Obligation{Rule: rule, Construct: construct, Status: Discharged, Pos: c.Pos(pos), Detail: detail})
 }
 
 func (c *Ctx) Violate(rule, construct string, pos token.Pos, detail string) {
+	if rule == "" {
+		return // a shared analysis run for another property: this part of it is not claimed there
+	}
 	c.add(&Obligation{Rule: rule, Construct: construct, Status: Violated, Pos: c.Pos(pos), Detail: detail})
 }
 
 func (c *Ctx) Undecided(rule, construct string, pos token.Pos, reason string) {
+	if rule == "" {
+		return // a shared analysis run for another property: this part of it is not claimed there
+	}
 	c.add(&Obligation{Rule: rule, Construct: construct, Status: Undecided, Pos: c.Pos(pos), Detail: reason})
 }
 
